@@ -10,6 +10,7 @@ import os
 import shutil
 import sys
 import tempfile
+import time
 from pathlib import Path
 from typing import Any
 
@@ -51,7 +52,9 @@ text_s = st.one_of(
 )
 tags_s = st.one_of(st.none(), st.lists(st.sampled_from(["result", "uds", "read", "write", "ANALYZE", "ü"]), max_size=3))
 record_s = st.fixed_dictionaries({"msg": text_s, "level": st.sampled_from(LEVELS), "tags": tags_s, "exc": st.integers(0, 9).map(lambda x: x == 0),
-                                  "lazy": st.integers(0, 7).map(lambda x: x == 0)})
+                                  "lazy": st.integers(0, 7).map(lambda x: x == 0),
+                                  # creation instants at the edges of a second / a minute (the record's own clock reading is replaced)
+                                  "at": st.one_of(st.none(), st.none(), st.sampled_from([0.0, 0.000001, 0.9999994, 0.9999996, 0.9999999, 0.999999, 0.5, 59.9999997, 59.9999992]))})
 
 
 @st.composite
@@ -76,6 +79,18 @@ class _Tap(logging.Handler):
                           "tags": record.__dict__.get("tags"), "exc": bool(record.exc_info)})
 
 
+class _Stamp(logging.Filter):
+    """Replaces the creation time of the records passing through (before any handler sees them)."""
+
+    created: float | None = None
+
+    def filter(self, record: logging.LogRecord) -> bool:
+        if self.created is not None:
+            record.created = self.created
+            record.msecs = (self.created - int(self.created)) * 1000.0
+        return True
+
+
 _counter = [0]
 
 
@@ -89,10 +104,14 @@ def write_log(case: dict[str, Any], d: Path) -> tuple[Path, list[dict[str, Any]]
     lg.propagate = False
     tap = _Tap()
     lg.addHandler(tap)
+    stamps = _Stamp()
+    lg.addFilter(stamps)
+    base = float(int(time.time()) // 60 * 60)
     path = d / "log.json.zst"
     h = add_zst_log_handler(name, path, Loglevel(case["file_level"]))
     try:
-        for r in case["records"]:
+        for i_, r in enumerate(case["records"]):
+            stamps.created = None if r.get("at") is None else base + 60.0 * i_ + r["at"]
             extra = {"tags": list(r["tags"])} if r["tags"] is not None else None
             if r["exc"]:
                 try:
@@ -111,6 +130,7 @@ def write_log(case: dict[str, Any], d: Path) -> tuple[Path, list[dict[str, Any]]
     finally:
         remove_zst_log_handler(name, h)
         lg.removeHandler(tap)
+        lg.removeFilter(stamps)
     W = [s for s in tap.seen if s["levelno"] >= case["file_level"]]
     return path, W
 
